@@ -4,6 +4,7 @@ import (
 	"go/constant"
 	"go/token"
 	"go/types"
+	"strings"
 
 	"golang.org/x/tools/go/ssa"
 
@@ -476,6 +477,11 @@ func (c *Ctx) lowerBoundX(v ssa.Value, at ssa.Instruction, d int, extra []Fact) 
 		if b, ok := call.Call.Value.(*ssa.Builtin); ok && (b.Name() == "len" || b.Name() == "cap") {
 			upd(0)
 		}
+		// library post-condition: the search functions return -1 or an offset
+		if f := call.Call.StaticCallee(); f != nil && f.Pkg != nil && (f.Pkg.Pkg.Path() == "strings" || f.Pkg.Pkg.Path() == "bytes") &&
+			(strings.HasPrefix(f.Name(), "Index") || strings.HasPrefix(f.Name(), "LastIndex")) {
+			upd(-1)
+		}
 	}
 	facts := append(append([]Fact{}, c.FactsAt(at)...), extra...)
 	for _, f := range facts {
@@ -506,6 +512,23 @@ func (c *Ctx) lowerBoundX(v ssa.Value, at ssa.Instruction, d int, extra []Fact) 
 			upd(k + 1)
 		case token.GEQ, token.EQL:
 			upd(k)
+		}
+	}
+	// v >= k and v != k give v >= k+1 (`idx != -1` after a search)
+	for round := 0; round < 2 && have; round++ {
+		for _, f := range facts {
+			if f.Op != token.NEQ {
+				continue
+			}
+			x, y := f.X, f.Y
+			if c.Equiv(stripIntConv(y), sv) {
+				x, y = y, x
+			} else if !c.Equiv(stripIntConv(x), sv) {
+				continue
+			}
+			if k, ok := constInt(y); ok && k == best {
+				upd(k + 1)
+			}
 		}
 	}
 	switch x := sv.(type) {
